@@ -97,7 +97,8 @@ class ControlFlowTransformer(converter.Base):
     """
     return templates.replace(
         template,
-        setter_arg_name=self.ctx.namer.new_symbol('vars_', block_vars),
+        setter_arg_name=self.ctx.namer.new_symbol(
+            'vars_', set().union(*(v.support_set for v in block_vars))),
         nonlocal_declarations=nonlocal_declarations,
         getter_name=getter_name,
         guarded_state_vars=guarded_block_vars,
